@@ -399,13 +399,13 @@ def shrink_script(corr, script, still_fails, max_rounds=6):
 def corr_scripts(ctx, scripts, slice_name, project=None, batch=40000, max_report=3):
     """Run independent scripts (each a list of op lines, each starting from a reset op) through the
     harness and the Lean driver, compare line by line (after `project`), shrink disagreements.
-    Returns (n_lines, n_disagreements, c_outputs (list per script))."""
+    Returns (n_lines, disagreements, [(script, impl outputs)], sanitizer signatures)."""
     total = 0
     disagreements = []
     all_c = []
     i = 0
     san = []
-    while i < len(scripts):
+    while i < len(scripts) and len(disagreements) < max_report:
         chunk = []
         nl = 0
         while i < len(scripts) and (nl < batch or not chunk):
@@ -414,12 +414,24 @@ def corr_scripts(ctx, scripts, slice_name, project=None, batch=40000, max_report
             i += 1
         lines = [l for sc in chunk for l in sc]
         c_out, l_out, c_err, c_rc = run_pair(ctx.corr, lines)
+        ncrash = 0
+        while c_rc != 0 and ncrash < 3 and len(chunk) > 0:
+            # harness died (sanitizer abort or crash): bisect to the script, record, drop it, re-run the rest
+            ncrash += 1
+            bad = _bisect_crash(ctx.corr, chunk)
+            small = shrink_script(ctx.corr, bad, lambda cand: run_c(ctx.corr, cand)[2] != 0)
+            _, serr, src = run_c(ctx.corr, small)
+            disagreements.append({"slice": slice_name, "crash": True, "harness_rc": src, "stderr": serr[-2500:],
+                                  "sanitizer": san_reports(serr), "script": small})
+            chunk = [sc for sc in chunk if sc is not bad]
+            lines = [l for sc in chunk for l in sc]
+            c_out, l_out, c_err, c_rc = run_pair(ctx.corr, lines)
+        if c_rc != 0:
+            disagreements.append({"slice": slice_name, "crash": True, "harness_rc": c_rc, "stderr": c_err[-1500:],
+                                  "script": [], "note": "more than 3 crashing scripts in one batch"})
+            continue
         total += len(lines)
         san += san_reports(c_err)
-        if c_rc != 0:
-            # harness died (sanitizer abort or crash): bisect to the script
-            disagreements.append({"slice": slice_name, "harness_rc": c_rc, "stderr": c_err[-1500:],
-                                  "script": _bisect_crash(ctx.corr, chunk)})
         if project:
             pc = [project(x) for x in c_out]
             plx = [project(x) for x in l_out]
@@ -427,7 +439,7 @@ def corr_scripts(ctx, scripts, slice_name, project=None, batch=40000, max_report
             pc, plx = c_out, l_out
         pos = 0
         for sc in chunk:
-            all_c.append(c_out[pos:pos + len(sc)])
+            all_c.append((sc, c_out[pos:pos + len(sc)]))
             pos += len(sc)
         d = _first_diff(chunk, pc, plx)
         nrep = 0
